@@ -63,6 +63,8 @@ var natives = map[string]interface{}{
 	"bytes.HasPrefix": bytes.HasPrefix, "bytes.HasSuffix": bytes.HasSuffix, "bytes.TrimSpace": bytes.TrimSpace, "bytes.Contains": bytes.Contains,
 }
 
+var abstractInErr = map[string]bool{"strconv.Itoa": true, "strconv.FormatInt": true, "strconv.FormatUint": true, "strconv.FormatFloat": true, "strconv.Quote": true}
+
 var errorIface = types.Universe.Lookup("error").Type().Underlying().(*types.Interface)
 
 // toNative converts a concrete engine value into a Go value of type rt.
@@ -185,6 +187,11 @@ func nativeModel(name string, f interface{}) modelFn {
 		for i, a := range args {
 			v, ok := in.toNative(a, ft.In(i))
 			if !ok {
+				if in.errFmt > 0 && abstractInErr[name] {
+					// building an error message: do not fork on the digits of a symbolic number
+					in.stubsHit["error-message text: symbolic numbers rendered as a placeholder"] = true
+					return mkStr(symPlaceholder)
+				}
 				return notHandled
 			}
 			ins[i] = v
@@ -404,6 +411,14 @@ func init() {
 		return Iface{t: in.canon(t), v: in.ti.zero(t)}
 	}
 	m["context.TODO"] = m["context.Background"]
+	m["internal/bytealg.MakeNoZero"] = func(in *Interp, fr *Frame, args []Value, call *ssa.CallCommon) Value {
+		n := mustConstInt(args[0], "MakeNoZero len")
+		o := in.newObj(n, "MakeNoZero")
+		for i := range o.cells {
+			o.cells[i] = mkBV(8, 0)
+		}
+		return Slice{o, 0, n, n}
+	}
 	m["os.Getenv"] = func(in *Interp, fr *Frame, args []Value, call *ssa.CallCommon) Value { return Str{} }
 	m["encoding/base64.(*Encoding).EncodeToString"] = nil
 	delete(m, "encoding/base64.(*Encoding).EncodeToString")
